@@ -56,6 +56,15 @@ impl Scenario for C07 {
     fn minimise(&self, case: &J, sig: &str) -> J {
         minimise(&StreamCase::from_json(case), sig, &crate::scen_read::eval, 60000).to_json()
     }
+    fn case_for_run(&self, seed: u64, run: u64, tier: Tier) -> J {
+        crate::scen_read::generate(seed, run, tier, &mut Stats::default()).0.to_json()
+    }
+    fn enumerate_case(&self, _tier: Tier, seed: u64, idx: u64) -> Option<J> {
+        Some(crate::scen_read::big_stream_case("C07", seed, idx, false).to_json())
+    }
+    fn minimise_ext(&self, case: &J, sig: &str, eval: &dyn Fn(&J) -> Vec<Violation>, budget: usize) -> J {
+        minimise(&StreamCase::from_json(case), sig, &|c: &StreamCase| eval(&c.to_json()), budget).to_json()
+    }
     fn sample(&self, seed: u64, run: u64, tier: Tier) -> J {
         let mut st = Stats::default();
         let (case, _) = crate::scen_read::generate(seed, run, tier, &mut st);
@@ -159,6 +168,15 @@ impl Scenario for C08 {
     fn minimise(&self, case: &J, sig: &str) -> J {
         minimise(&StreamCase::from_json(case), sig, &crate::scen_poll::eval, 60000).to_json()
     }
+    fn case_for_run(&self, seed: u64, run: u64, tier: Tier) -> J {
+        crate::scen_poll::generate(seed, run, tier, &mut Stats::default()).to_json()
+    }
+    fn enumerate_case(&self, _tier: Tier, seed: u64, idx: u64) -> Option<J> {
+        Some(crate::scen_read::big_stream_case("C08", seed, idx, true).to_json())
+    }
+    fn minimise_ext(&self, case: &J, sig: &str, eval: &dyn Fn(&J) -> Vec<Violation>, budget: usize) -> J {
+        minimise(&StreamCase::from_json(case), sig, &|c: &StreamCase| eval(&c.to_json()), budget).to_json()
+    }
     fn sample(&self, seed: u64, run: u64, tier: Tier) -> J {
         let mut st = Stats::default();
         let case = crate::scen_poll::generate(seed, run, tier, &mut st);
@@ -244,6 +262,12 @@ impl Scenario for C10 {
     fn minimise(&self, case: &J, sig: &str) -> J {
         minimise(&StreamCase::from_json(case), sig, &crate::scen_stat::eval, 60000).to_json()
     }
+    fn case_for_run(&self, seed: u64, run: u64, tier: Tier) -> J {
+        crate::scen_stat::generate(seed, run, tier, &mut Stats::default()).to_json()
+    }
+    fn minimise_ext(&self, case: &J, sig: &str, eval: &dyn Fn(&J) -> Vec<Violation>, budget: usize) -> J {
+        minimise(&StreamCase::from_json(case), sig, &|c: &StreamCase| eval(&c.to_json()), budget).to_json()
+    }
     fn sample(&self, seed: u64, run: u64, tier: Tier) -> J {
         let mut st = Stats::default();
         let case = crate::scen_stat::generate(seed, run, tier, &mut st);
@@ -305,6 +329,12 @@ impl Scenario for Slice {
         let f = crate::scen_slice::eval_for(self.0);
         minimise(&StreamCase::from_json(case), sig, &f, 60000).to_json()
     }
+    fn case_for_run(&self, seed: u64, run: u64, tier: Tier) -> J {
+        crate::scen_slice::generate(self.0, seed, run, tier, &mut Stats::default()).to_json()
+    }
+    fn minimise_ext(&self, case: &J, sig: &str, eval: &dyn Fn(&J) -> Vec<Violation>, budget: usize) -> J {
+        minimise(&StreamCase::from_json(case), sig, &|c: &StreamCase| eval(&c.to_json()), budget).to_json()
+    }
     fn sample(&self, seed: u64, run: u64, tier: Tier) -> J {
         let mut st = Stats::default();
         let case = crate::scen_slice::generate(self.0, seed, run, tier, &mut st);
@@ -338,7 +368,7 @@ impl Scenario for Slice {
             Focus::C06 => (
                 "exploration",
                 "one run = a storage-mode stream with pattern-free junk blocks (0..64 bytes, sometimes 4 KiB; biased to end in D / DL / DLT, to contain DLT\\0 and DDLT) before, between and after records, delivered through a ScriptedRead into the streaming consumer (pattern resync). On every buffer the consumer holds: forward_to_next_storage_header == naive first-match search (offset, remainder pointer); junk ++ m ++ s parses like m ++ s; every record wholly delivered is recovered in order exactly once. distinct = (medium, mode, delivery script) hash; non-trivial = at least one record recovered AND (a delivery boundary inside the medium OR a junk block present).",
-                vec!["mode_junk", "F-JUNK", "search_calls", "search_skipped_junk", "junk_blocks_judged", "junk_records_expected", "search_partial_pattern_at_end"],
+                vec!["mode_junk", "F-JUNK", "search_calls", "search_calls_big_buffer", "search_skipped_junk", "junk_blocks_judged", "junk_records_expected", "junk_filtered_consumers", "search_partial_pattern_at_end"],
                 vec!["resyncs", "junk_run_discarded"],
             ),
             Focus::C16 => (
@@ -388,6 +418,15 @@ impl Scenario for C12 {
     fn minimise(&self, case: &J, sig: &str) -> J {
         crate::scen_fibex::minimise(&crate::scen_fibex::FibexCase::from_json(case), sig).to_json()
     }
+    fn case_for_run(&self, seed: u64, run: u64, tier: Tier) -> J {
+        crate::scen_fibex::generate(seed, run, tier, &mut Stats::default()).to_json()
+    }
+    fn enumerate_case(&self, tier: Tier, seed: u64, idx: u64) -> Option<J> {
+        crate::scen_fibex::enumerated_case(tier, seed, idx).map(|c| c.to_json())
+    }
+    fn minimise_ext(&self, case: &J, sig: &str, eval: &dyn Fn(&J) -> Vec<Violation>, budget: usize) -> J {
+        crate::scen_fibex::minimise_with(&crate::scen_fibex::FibexCase::from_json(case), sig, &|c: &crate::scen_fibex::FibexCase| eval(&c.to_json()), budget).to_json()
+    }
     fn sample(&self, seed: u64, run: u64, tier: Tier) -> J {
         let mut st = Stats::default();
         let case = crate::scen_fibex::generate(seed, run, tier, &mut st);
@@ -413,8 +452,8 @@ impl Scenario for C12 {
             "termination is judged in steps of the XML reader (hook verif_hooks); a 120 s wall-clock watchdog is only a backstop".into(),
             "which of the two answers (model / refusal) a damaged file gets is not judged, only counted".into(),
         ];
-        e.fault_kinds = vec!["F-TRUNC", "F-FLIP", "F-BYTE", "F-DROP", "F-DUP", "F-NUM", "F-STRUCT", "F-FILE", "F-UTF16"];
-        e.harness_probes = vec!["enumerated_cuts", "enumerated_documents", "doc_shipped", "doc_generated", "F-TRUNC", "F-STRUCT", "F-FILE", "F-NUM", "load_clean"];
+        e.fault_kinds = vec!["F-TRUNC", "F-FLIP", "F-BYTE", "F-DROP", "F-DUP", "F-NUM", "F-STRUCT", "F-REF", "F-NEST", "F-DEEP", "F-FILE", "F-UTF16"];
+        e.harness_probes = vec!["enumerated_cuts", "enumerated_documents", "doc_shipped", "doc_generated", "F-TRUNC", "F-STRUCT", "F-REF", "F-NEST", "F-DEEP", "F-FILE", "F-NUM", "load_clean"];
         e.crate_probes = vec!["answer_model", "answer_refusal"];
         e.step_keys = vec!["xml_steps"];
         e.exhaustive = false;
